@@ -274,7 +274,7 @@ type c11 struct{}
 func init() { register(c11{}) }
 
 func (c11) ID() string           { return "C11" }
-func (c11) Runs(tier string) int { return tierLen(tier, 2000, 30000) }
+func (c11) Runs(tier string) int { return tierLen(tier, 5000, 40000) }
 
 func (c11) Gen(r *kern.Rng, tier string, idx int) *Trace {
 	maxLen := tierLen(tier, 120000, 600000)
